@@ -704,6 +704,17 @@ async def _scenario(loop, spec, want_cases):
     res["built"] = c.state == "READY"
     res["path"] = [(p[0], p[1]) for p in path]
     destroy = {"destroy": 2, "silent": 0}.get(mode, 0)
+    dem = spec.get("demand")
+    if dem is not None:
+        # nodes of the path want circuits of their own (build_tunnels) but know nobody to build them with: every
+        # round of their interval task first fails to create a circuit - and must still sweep
+        res["demand"] = []
+        for p in (range(len(path)) if dem == "all" else [dem]):
+            if p < len(path):
+                n = w.nodes[path[p][0]]
+                n.candidates.clear()
+                n.build_tunnels(1)
+                res["demand"].append(path[p][0])
     if init is not None and init[0] == "node":
         pos = init[1]
         if pos >= len(path):
@@ -949,6 +960,18 @@ def families(quick, rng, seed0=0):
                                   "family": "outside-peer", "outside_after": True,
                                   "outside_period": (8 if len(jobs) % 2 else 15) * TPS},
                          "enumerate": "destroy" if mode == "destroy" else None, "upto": 3, "lockstep": 5})
+        # nodes on the path with a demand for own circuits that cannot be met (each position, and all at once),
+        # while the teardown does not reach them: silent removal, lost destroys, cut links, crashed originator
+        for dem in list(range(h + 1)) + ["all"]:
+            dinits = [(("node", 0), "silent"), (("node", 0), "destroy"), (("crash", 0), "crash")]
+            dinits += [(("cut", j), "cut") for j in range(1, h + 1)]
+            for init, mode in dinits:
+                phase = "transfer" if (len(jobs) % 3) else "ready"
+                base = {"hops": h, "phase": phase, "init": init, "mode": mode, "seed": seed0 + len(jobs) + 1,
+                        "family": "own-demand", "demand": dem}
+                if phase == "transfer" and len(jobs) % 2:
+                    base["outside_after"] = True
+                jobs.append({"base": base, "enumerate": "destroy" if mode == "destroy" else None, "upto": 3, "lockstep": 5})
         # age limit and traffic limit, nobody tears anything down
         jobs.append({"base": {"hops": h, "phase": "ready", "init": None, "mode": "none", "seed": seed0 + len(jobs) + 1,
                               "family": "age-limit", "settings": {"max_time": 40}}, "enumerate": None, "upto": 0, "lockstep": 5})
@@ -969,6 +992,8 @@ def families(quick, rng, seed0=0):
         if phase == "transfer" and rng.random() < 0.5:
             base["outside_after"] = True
             base["outside_period"] = rng.choice((4, 8, 15)) * TPS
+        if phase != "half" and rng.random() < 0.3:
+            base["demand"] = rng.choice(list(range(h + 1)) + ["all"])
         if phase == "half":
             base["k"] = rng.randrange(h)
             base["t_td"] = half_time(base["k"])
